@@ -282,6 +282,12 @@ def gen(rng: random.Random, tier: str) -> dict:
             elif k < 0.55:
                 d = d + "\n\n[foo]: /other-foo\n[x]: /other-x\n[ref]: /other-ref 'T'\n"
         probes.append([j, m, d, rng.choice(["omit", "fresh"])])
+    for op in [o for o in ops if o[0] == "at_alt"][:1]:
+        # the customised instance and a bystander on the same terminator-sensitive text
+        tdoc = STATEFUL_DOCS[-5] if rng.random() < 0.5 else STATEFUL_DOCS[-4]
+        probes.append([op[1], "render", tdoc, "fresh"])
+        if n_inst > 1:
+            probes.append([(op[1] + 1) % n_inst, "render", tdoc, "fresh"])
     return {"user_presets": user_presets, "user_options": user_options, "n_env": n_env, "ops": ops, "probes": probes,
             "env_type": rng.choice(["dict", "dict", "userdict"])}
 
